@@ -31,11 +31,12 @@ THEOREMS = [P + n for n in [
     "generated_complement_ok", "generated_inverse_ok", "generated_inverse_ops_ok", "generated_subflip_ok",
     "generated_pipeline_known", "generated_parens_guard_reparse_safe", "simplify_parens_text_safe", "parens_known_unsafe_witness",
     "generated_parens_guard_matches_model",
-    "rewrite_between_sound", "simplify_not_sound", "conn_const_sound", "conn_const_exact", "bin_pair_sound",
+    "rewrite_between_sound", "rewrite_between_keeps_grouping", "rewrite_between_not_only_witness", "simplify_not_sound", "conn_const_sound", "conn_const_exact", "bin_pair_sound",
     "simplify_neg_neg_sound", "simplify_equality_sound", "simplify_parens_sound", "flatten_sound",
     "simplify_conditionals_if_sound", "simplify_conditionals_sound", "simplify_conditionals_needs_first_branch",
     "simplify_conditionals_keeps_grouping",
     "simplify_coalesce_head_sound", "simplify_coalesce_cmp_sound", "simplify_coalesce_needs_nonnull_constant",
+    "simplify_coalesce_guard_subject_needed",
     "simplify_comparison_bounds_sound", "simplify_comparison_tie_needed",
     "simplify_comparison_nonnull_sound", "simplify_comparison_where_sound", "simplify_comparison_false_nonnull",
     "simplify_comparison_not_where_counterexample", "simplify_comparison_nonfalse_sound", "exact_pair_sound",
@@ -209,6 +210,17 @@ def distribute_uses_from_ast(chk: Check) -> str:
             + ", ".join(f"⟨{'true' if u[0] else 'false'}, .{u[1]}, {'true' if u[2] else 'false'}⟩" for u in uses) + "]\n")
 
 
+def _between_wrap_pinned() -> bool:
+    src = open(os.path.join(REPO, "sqlglot", "optimizer", "simplify.py"), encoding="utf-8").read()
+    for cls in [n for n in ast.parse(src).body if isinstance(n, ast.ClassDef) and n.name == "Simplifier"]:
+        for fn in [n for n in cls.body if isinstance(n, ast.FunctionDef) and n.name == "rewrite_between"]:
+            for node in ast.walk(fn):
+                if isinstance(node, ast.Assign) and len(node.targets) == 1 and isinstance(node.targets[0], ast.Name) and node.targets[0].id == "wrap":
+                    text = re.sub(r"[\s()]+", "", ast.unparse(node.value))
+                    return text == "isinstanceparent,exp.Binary,exp.Unary,exp.Predicateandnotisinstanceparent,exp.Connector,exp.Paren"
+    return False
+
+
 def translate(chk: Check) -> str:
     exp, S, N = sg()
     from sqlglot.dialects.dialect import Dialect, Dialects
@@ -244,6 +256,8 @@ def translate(chk: Check) -> str:
         and not any(issubclass(c, exp.Unary) for c in classes + [exp.Is, exp.And, exp.Or, exp.Add, exp.Sub, exp.Mul, exp.Between, exp.In,
                                                             exp.Coalesce, exp.Case, exp.If, exp.Column, exp.Literal, exp.Null, exp.Boolean]),
         "wrap_helper": hasattr(S, "_parenthesize_for_parent"),
+        # rewrite_between's `wrap`: isinstance(parent, (Binary, Unary, Predicate)) and not isinstance(parent, (Connector, Paren))
+        "between_wrap": _between_wrap_pinned(),
         "comparisons": set(Sx.COMPARISONS) == set(classes + [exp.Is]),
         "lt_lte": tuple(Sx.LT_LTE) == (exp.LT, exp.LTE) and tuple(Sx.GT_GTE) == (exp.GT, exp.GTE),
         "constants": set(exp.CONSTANTS) == {exp.Literal, exp.Boolean, exp.Null} and set(exp.NONNULL_CONSTANTS) == {exp.Literal, exp.Boolean},
@@ -478,8 +492,14 @@ def domain(exprs):
     return names, doms
 
 
-def differing_envs(a, b, limit=40000):
-    """all assignments under which a and b evaluate differently: ('ok', [(env,u,v)...]) / ('unsupported', msg) / ('toolarge', n)"""
+def same_truth(u, v):
+    return truth(u) == truth(v)
+
+
+def differing_envs(a, b, limit=40000, truth_only=False):
+    """all assignments under which a and b evaluate differently: ('ok', [(env,u,v)...]) / ('unsupported', msg) / ('toolarge', n).
+    truth_only: compare 3-valued truth values (an operand of AND / OR: `TRUE AND x -> x` for a numeric x)"""
+    eq = same_truth if truth_only else same
     try:
         fa, fb = comp(a), comp(b)
     except Unsupported as e:
@@ -494,7 +514,7 @@ def differing_envs(a, b, limit=40000):
     for vals in itertools.product(*doms):
         env = dict(zip(names, vals))
         u, v = fa(env), fb(env)
-        if not same(u, v):
+        if not eq(u, v):
             out.append((env, u, v))
     return "ok", out
 
@@ -543,6 +563,45 @@ def gen_const(rng, depth):
     if k < 0.92:
         return f"COALESCE({a()}, {a()})"
     return f"CASE WHEN {a()} THEN {a()} ELSE {a()} END"
+
+
+# COALESCE compared with a constant: 1-4 non-constant arguments before the first constant, constants in any position,
+# int and bool typed, every comparison operator, both operand orders (simplify_coalesce's comparison branch)
+COALESCE_ARGS_INT = [["i0", "1"], ["i0", "i1", "1"], ["i0", "i1", "i2", "2"], ["i0", "i1", "i2", "i3", "1"], ["i0", "1", "i1"], ["1", "i0", "i1"],
+                     ["i0", "i1", "2", "i2", "3"], ["i0", "i1", "NULL", "2"], ["i0", "i1", "-1"], ["i0", "i0 + 1", "1"], ["i1", "i0", "i1", "2"],
+                     ["i0", "i1"], ["i0", "i1", "NULL"]]
+COALESCE_ARGS_BOOL = [["b0", "TRUE"], ["b0", "b1", "TRUE"], ["b0", "b1", "b2", "FALSE"], ["b0", "i0 > 1", "FALSE"], ["b0", "b1", "NULL", "TRUE"]]
+COALESCE_CMP_INT = ["{C} = 2", "2 = {C}", "{C} <> 1", "1 <> {C}", "{C} < 2", "2 < {C}", "{C} <= 1", "1 <= {C}", "{C} > 1", "1 > {C}", "{C} >= 2", "2 >= {C}",
+                    "{C} IS NULL", "{C} IS NOT NULL", "{C} = -1", "{C} = NULL", "{C} = i3", "NOT {C} = 2", "{C} = 2 AND b0", "{C} + 1 = 3", "{C} IN (1, 2)",
+                    "{C} BETWEEN 1 AND 2", "{C} = 2 OR {C} = 1"]
+COALESCE_CMP_BOOL = ["{C} = TRUE", "FALSE = {C}", "{C} <> TRUE", "{C} IS TRUE", "{C} IS NOT TRUE", "{C} IS NULL", "{C} AND b2", "NOT {C}", "{C} = b2"]
+
+
+def coalesce_cases(with_index=False):
+    for ai, args in enumerate(COALESCE_ARGS_INT):
+        for ci, ctx in enumerate(COALESCE_CMP_INT):
+            q = ctx.replace("{C}", "COALESCE(" + ", ".join(args) + ")")
+            yield (ai, ci, q) if with_index else q
+    for ai, args in enumerate(COALESCE_ARGS_BOOL):
+        for ci, ctx in enumerate(COALESCE_CMP_BOOL):
+            q = ctx.replace("{C}", "COALESCE(" + ", ".join(args) + ")")
+            yield (100 + ai, ci, q) if with_index else q
+
+
+def coalesce_template(rng):
+    if rng.random() < 0.7:
+        n = rng.choice([1, 2, 2, 3, 4])
+        args = [rng.choice(["i0", "i1", "i2", "i3", "i0 + 1", "-i1"]) for _ in range(n)]
+        k = [rng.choice(["1", "2", "-1", "NULL", "0"])]
+        tail = [rng.choice(["i2", "3", "i0"])] if rng.random() < 0.3 else []
+        pos = rng.choice([len(args)] * 3 + [0, 1])
+        args = args[:pos] + k + args[pos:] + tail
+        ctx = rng.choice(COALESCE_CMP_INT)
+    else:
+        n = rng.choice([1, 2, 3])
+        args = [rng.choice(["b0", "b1", "b2", "i0 > 1", "NOT b1"]) for _ in range(n)] + [rng.choice(["TRUE", "FALSE", "NULL"])]
+        ctx = rng.choice(COALESCE_CMP_BOOL)
+    return ctx.replace("{C}", "COALESCE(" + ", ".join(args) + ")")
 
 
 CONN_VARS = ["b0", "b1", "b2", "b3", "b4", "b5", "b6", "b7"]
@@ -751,7 +810,11 @@ def templates(rng, cols):
         f"({A} {other} {B}) {conn} ({A} {other} NOT {B})", f"({A} {other} {B}) {conn} ({C} {other} {B})",
         f"({A} {other} {B}) {conn} ({A} {other} {B} {other} {C})", f"{C} {conn} {A} {conn} {B} {conn} {A}",
         f"NOT ({A} {conn} {B})", f"NOT NOT {A}", f"NOT NOT ({c} {o1} {l1})", f"NOT NOT {c}", f"NOT ({c} {o1} {l1})", f"NOT {l1}", f"NOT ((NULL))",
-        f"COALESCE({c}, {l1}) {o1} {l2}", f"{l2} {o1} COALESCE({c}, {l1})", f"COALESCE({c}, {c2}, {l1}) {o1} {l2}", f"COALESCE({l1}, {c}) {o1} {l2}", f"COALESCE({c})", f"COALESCE({c}, {l1}) IS NOT NULL", f"COALESCE({c}, {l1}) IS NULL",
+        f"COALESCE({c}, {l1}) {o1} {l2}", f"{l2} {o1} COALESCE({c}, {l1})", f"COALESCE({c}, {c2}, {l1}) {o1} {l2}", f"COALESCE({l1}, {c}) {o1} {l2}", f"COALESCE({c})", f"COALESCE({c}, {l1}) IS NOT NULL",
+        f"({c} AND TRUE) AND TRUE", f"({c} AND TRUE) AND ({l1} = {l1})", f"({c} OR FALSE) AND TRUE", f"({c} AND TRUE) OR FALSE", f"({c} AND TRUE) AND {A}",
+        f"{c} AND {A}", f"{c} OR {c2}", f"IF(({c} AND TRUE) AND TRUE, {l1}, {l2})", f"(({c} AND TRUE)) AND TRUE = {A}",
+        f"{c} BETWEEN {l1} AND {l2} IS NULL", f"{c} BETWEEN {l1} AND {l2} IS TRUE", f"{c} BETWEEN {l1} AND {l2} = {A}", f"NOT {c} BETWEEN {l1} AND {l2} IS NULL",
+        f"{c} NOT BETWEEN {l1} AND {l2} IS NOT NULL", f"{c} IN ({l1}, {l2}) IS NULL", f"{c} IN ({l1}, {l2}) = {A}", f"{c} IS NULL = {A}", f"{c} BETWEEN {l1} AND {l2} IN ({A}, TRUE)", f"COALESCE({c}, {l1}) IS NULL",
         f"NOT COALESCE({c}, {c2}, {l1}) IS NULL", f"COALESCE({c}, {l1}) IS NOT NULL {conn} {A}", f"COALESCE({A}, TRUE) IS TRUE", f"COALESCE({A}, FALSE) IS NOT TRUE", f"COALESCE({c}, NULL, {c2}) {o1} {l2}", f"{l2} {o1} COALESCE({c}, {c2}, -{l1}, {c})",
         f"{c} + {l1} {o1} {l2}", f"{l1} - {c} {o1} {l2}", f"{l1} + {c} {o1} {l2}", f"{c} - {l1} {o1} {l2}", f"-{c} + {l1} {o1} {l2}",
         f"{c} BETWEEN {l1} AND {l2} {conn} {c} {o1} {l2}", f"NOT {c} BETWEEN {l1} AND {l2}",
@@ -810,7 +873,9 @@ def paren_template(rng):
 def gen_sql(rng, nonnull=False):
     cols = {"b": BCOLS + (NB * 3 if nonnull else []), "i": ICOLS + (NI * 2 if nonnull else [])}
     r = rng.random()
-    if r < 0.04:
+    if r < 0.03:
+        return coalesce_template(rng)
+    if r < 0.06:
         return conn_template(rng)
     if r < 0.08:
         return branch_template(rng)
@@ -840,7 +905,7 @@ def typed(e):
         t = {}
         for c in BCOLS + [v for v in CONN_VARS if v not in BCOLS]:
             t[c] = "boolean"
-        for c in ICOLS:
+        for c in ICOLS + ["i2", "i3"]:
             t[c] = "int"
         for c in NB:
             t[c] = exp.DataType.build("boolean", nullable=False)
@@ -1158,7 +1223,9 @@ def classify(diffs):
     """kind of a semantic difference: which results are confused"""
     kinds = set()
     for env, u, v in diffs:
-        if u is None and v is not None:
+        if u is not None and v is not None and truth(u) == truth(v):
+            kinds.add("same-truth")  # TRUE vs 5: the same 3-valued truth value, another value (a numeric left as a predicate)
+        elif u is None and v is not None:
             kinds.add("null-to-" + ("true" if truth(v) else "false") if isinstance(v, bool) or v in (0, 1) else "null-to-value")
         elif v is None:
             kinds.add("value-to-null")
@@ -1373,13 +1440,18 @@ def check_input(chk: Check, sql, variant, api, dialect, report=True):
     step_diff_envs = []
     quiet_steps = []  # changed steps that do not differ on their own domain (a larger end-to-end domain may still reach them)
     for rule, ctx, be, af in step_pairs(log):
-        st, res = differing_envs(be, af)
+        # the pair tables of simplify_connectors, and the rule itself under a connector / parenthesis, work on operands of
+        # AND / OR: what matters there is the 3-valued truth value (the rule re-wraps `x AND TRUE` where a value is needed)
+        truth_only = rule == "_simplify_connectors" or (rule == "simplify_connectors" and ctx.get("p") in ("and", "or", "paren"))
+        st, res = differing_envs(be, af, truth_only=truth_only)
         chk.count(f"step:{rule}:{'changed' if st == 'ok' else st}")
-        if st == "ok" and not res:
+        if st == "ok" and not res and not truth_only:
             quiet_steps.append((rule, be, af))
         if st != "ok" or not res:
             continue
         kind = classify(res)
+        if rule == "propagate_constants" and all(truth(u) is not True and truth(v) is not True for _, u, v in res):
+            kind = "null-to-false"  # NULL and FALSE confused in either direction, TRUE preserved: the by-design WHERE-equivalence
         if rule == "propagate_constants" and propagated_non_conjunct(be, af):
             kind = "eq-not-conjunct"  # the defect repaired by 9e10c4d (kind=fixed: reported if it comes back)
         key = f"{rule}:{skeleton(be)}=>{skeleton(af)}"
@@ -1418,6 +1490,8 @@ def check_input(chk: Check, sql, variant, api, dialect, report=True):
                 env2 = {k: v for k, v in r[0].items() if k in cols2}
                 u2, v2 = fa2(env2), fb2(env2)
                 kind2 = classify([(env2, u2, v2)])
+                if rule2 == "propagate_constants" and truth(u2) is not True and truth(v2) is not True:
+                    kind2 = "null-to-false"
                 if rule2 == "propagate_constants" and propagated_non_conjunct(be2, af2):
                     kind2 = "eq-not-conjunct"
                 viols.append({"key": f"{rule2}:{skeleton(be2)}=>{skeleton(af2)}", "rule": rule2, "kind": kind2,
@@ -1458,6 +1532,18 @@ def check_input(chk: Check, sql, variant, api, dialect, report=True):
                         if r2 is not None and r2[0] in ("differs", "unparsable"):
                             culprit = (ctx2, pb2, pa2, r2)
                             break
+                if culprit is None:
+                    # no step differs in value on its own small context (e.g. NOT NULL columns): fall back to the first step
+                    # whose result does not even parse back to the same tree
+                    import sqlglot
+                    for rule2, ctx2, pb2, pa2 in log:
+                        if rule2 == "step_text":
+                            try:
+                                if sqlglot.parse_one(pa2.sql(dialect=td), read=td) != pa2 and sqlglot.parse_one(pb2.sql(dialect=td), read=td) == pb2:
+                                    culprit = (ctx2, pb2, pa2, ("differs", "parses back as another tree"))
+                                    break
+                            except Exception:
+                                continue
                 if culprit is not None:
                     ctx2, pb2, pa2, r2 = culprit
                     text_viols.append({"key": f"{ctx2['rule']}:text:{ctx2['pk']}({ctx2['ck']})", "rule": ctx2["rule"], "kind": "text-" + r2[0],
@@ -1524,7 +1610,9 @@ def model_request(rule, ctx, before, after):
         return {"op": "flat_simplify", "k": k, "gate": ctx["gate"], "pif": ctx["pif"], "e": to_json(before)}, to_json(after)
     p = ctx["p"]
     if rule == "rewrite_between":
-        return {"op": rule, "pnot": p == "not", "e": to_json(before)}, to_json(after)
+        if p.startswith("other"):
+            return None
+        return {"op": rule, "p": p, "e": to_json(before)}, to_json(after)
     if rule == "simplify_not":
         return {"op": rule, "p": p, "ib": ctx.get("ib", False), "sdn": ctx["sdn"], "e": to_json(before)}, to_json(after)
     if rule == "simplify_equality":
@@ -1875,6 +1963,10 @@ CORPUS = [
     ("COALESCE(i0, 1) IS NOT NULL", "untyped+isneg", "simplify_co"), ("COALESCE(i0, i1, 2) IS NOT NULL AND b0", "untyped+isneg", "simplify_co"),
     ("COALESCE(i0, 1) IS NOT NULL", "untyped", "simplify_co"), ("COALESCE(b0, TRUE) IS NOT TRUE", "untyped+isneg", "simplify_co"),
     ("i1 = 2 + 3 AND i1 <> i0 - i1 AND i0 - i1 <= 5", "untyped", "simplify_cp"),
+    ("i0 BETWEEN 1 AND 2 IS NULL", "untyped", "simplify"), ("i0 BETWEEN 1 AND 2 = b0", "untyped", "simplify"), ("NOT i0 BETWEEN 1 AND 2 IS TRUE", "typed", "simplify"),
+    ("i0 BETWEEN 1 AND 2 IS NULL", "untyped", "cnf"), ("i0 IN (1, 2) IS NULL", "untyped", "simplify"), ("i0 BETWEEN 1 AND 2 IN (b0, TRUE)", "untyped", "simplify"),
+    ("(i0 AND TRUE) AND (1 = 1)", "typed", "simplify"), ("(i0 AND TRUE) AND TRUE", "untyped", "simplify"), ("(i0 OR FALSE) AND TRUE", "typed", "simplify"),
+    ("COALESCE(i0, i1, 1) = 2", "untyped", "simplify_co"), ("2 < COALESCE(i0, i1, i2, 1)", "typed", "simplify_co"),
     ("-NULL IS NULL", "untyped", "simplify"), ("i0 > 1 AND -NULL IS NULL", "untyped", "simplify"),
     ("i0 - 5 - 3 > 1", "untyped", "simplify"), ("5 - i0 < 2", "untyped", "simplify"), ("b0 AND TRUE", "untyped", "simplify"),
 ]
@@ -1960,7 +2052,7 @@ def run(chk: Check) -> None:
             for o1 in RANGE:
                 for o2 in RANGE:
                     for conn in ("AND", "OR"):
-                        if chk.quick and rng.random() > 0.25:
+                        if chk.quick and rng.random() > 0.2:
                             continue
                         one(f"{K} {o1} {T} {conn} {T} {o2} 7", "untyped", "simplify", dlist[0])
                         one(f"{T} {o2} 7 {conn} NOT ({T} + 1 {o1} 3)", "untyped", "simplify", dlist[0])
@@ -1977,24 +2069,31 @@ def run(chk: Check) -> None:
         q = conn_template(rng)
         for api in (("cnf", "dnf") if rng.random() < 0.7 else ("simplify",)):
             one(q, rng.choice(["untyped", "typed"]), api, dlist[0])
+    # COALESCE sweep under coalesce_simplification=True with every dialect-flag combination
+    for ai, ci, q in coalesce_cases(with_index=True):
+        if chk.quick and not (ai in (1, 101) and ci < 4) and (ai in (3, 6, 10) or rng.random() > 0.08):
+            continue
+        d = dlist[(ai + ci) % len(dlist)]
+        one(q, rng.choice(["untyped", "typed", "untyped+isneg"]), "simplify_co", d)
+    marks["coalesce"] = round(time.time() - t0, 1)
     marks["conn"] = round(time.time() - t0, 1)
     # constant sweep: every constant shape (NULL under unary minus / inside arithmetic ...) in every folding context
     for ci, ki, q in const_cases(with_index=True):
         # quick: the NULL-under-unary-minus shapes in the IS [NOT] NULL contexts always, the rest sampled; thorough: all
-        if chk.quick and not (ci < 4 and ki < 5) and rng.random() > 0.2:
+        if chk.quick and not (ci < 4 and ki < 5) and rng.random() > 0.14:
             continue
         one(q, "untyped", rng.choice(["simplify", "simplify", "simplify_co"]), dlist[0])
     marks["const"] = round(time.time() - t0, 1)
     # Paren-removal sweep: every parent kind x child kind (sampled in quick; the IN / BETWEEN / arithmetic parents always)
     for q in paren_cases():
-        if chk.quick and rng.random() > 0.3:
+        if chk.quick and rng.random() > 0.2:
             continue
         one(q, "untyped", "simplify", dlist[0])
     marks["paren"] = round(time.time() - t0, 1)
     chk.cov["sweep_marks"] = marks
     chk.cov["sweep_s"] = round(time.time() - t0, 1)
     t_rand = time.time()
-    while time.time() - t_rand < budget * 0.33 and len(chk.violations) < 6:
+    while time.time() - t_rand < budget * 0.28 and len(chk.violations) < 6:
         variant = rng.choice(["untyped", "typed", "nonnull"])
         sql = gen_sql(rng, nonnull=variant == "nonnull")
         sqls.append(sql)
